@@ -140,7 +140,7 @@ func Sets() []*Set {
 	setC := A.SetAttr("set-tag-c", pn.Ref, "tag", "c", T(4))
 	add(&Set{Name: "attr-history", Blobs: []hs.Blob{A.Pub, pn, addA, addB, delA, setC},
 		Attrs: []string{"tag"}, Vals: []string{"a", "b", "c"}, MaxRank: 4,
-		Quick: true, DupsThorough: "ends"})
+		Quick: false, DupsThorough: "ends"})
 
 	// 5. camliPath claim + target permanode (+ delete of the claim)
 	path := A.SetAttr("set-path", pn.Ref, "camliPath:foo", pn2.Ref.String(), T(1))
